@@ -23,3 +23,10 @@ pub type VarRenameMap = HashMap<String, String>;
 /// Shorthand for mapping between string labels (domain label, proposition, formula) and the corresponding
 /// set it evaluates to.
 pub type LabelToSetMap = HashMap<String, GraphColoredVertices>;
+
+/// **(verification hook)** Public access to the otherwise private canonisation functions.
+/// Only compiled with `--cfg hctl_verif`; used by the external conformance harness.
+#[cfg(hctl_verif)]
+pub mod canonization_export {
+    pub use super::canonization::{get_canonical, get_canonical_and_renaming};
+}
